@@ -211,6 +211,34 @@ func (f *frame) ifaceModPats(cc *ssa.CallCommon) ([]modPat, bool) {
 		return nil, true
 	}
 	_ = name
+	// an interface-method contract with an assigns clause gives a type-level frame
+	if spec := vc.Eng.Spec.Funcs[ifaceKey(cc.Value.Type(), cc.Method.Name())]; spec != nil && spec.HasAssign {
+		var pats []modPat
+		sig := cc.Method.Type().(*types.Signature)
+		env := &Env{vc: vc, st: f.entry, old: f.entry, vars: map[string]Val{}, fn: f.fn, specFile: spec.File}
+		env.vars["recv"] = Val{T: "Null", Typ: cc.Value.Type()}
+		for i := 0; i < sig.Params().Len(); i++ {
+			pn := sig.Params().At(i).Name()
+			if i < len(spec.ParamNames) {
+				pn = spec.ParamNames[i]
+			}
+			env.vars[pn] = Val{T: "Null", Typ: sig.Params().At(i).Type()}
+		}
+		for _, c := range spec.Assigns {
+			_, t, steps, ok := vc.specAddr(env, c.Expr)
+			if !ok {
+				return nil, false
+			}
+			for _, lf := range vc.leaves(t) {
+				ss := append(append([]step{}, steps...), lf.steps...)
+				for i := range ss {
+					ss[i].idx = ""
+				}
+				pats = append(pats, modPat{sort: lf.sort, steps: ss})
+			}
+		}
+		return pats, true
+	}
 	return nil, false
 }
 
